@@ -71,7 +71,7 @@ SplitOK(w, ifs, fs) ==
 (***************************************************************************)
 (* Segment alphabet of the generator: id -> position                        *)
 (***************************************************************************)
-Chars == <<"x", "SP", "TAB", ",", ":", "U1">>
+Chars == <<"x", "SP", "TAB", ",", ":", "U1", "CR">>     \* CR: white space that is in no IFS setting
 SegKinds == [i \in 1..(2 * Len(Chars) + 1) |->
                IF i <= Len(Chars) THEN [c |-> Chars[i], q |-> FALSE]
                ELSE IF i <= 2 * Len(Chars) THEN [c |-> Chars[i - Len(Chars)], q |-> TRUE]
